@@ -186,7 +186,8 @@ def run(tier):
                        "plog": [l.split(" ")[0] for l in plog if l.split(" ")[0] in ("start", "got", "done", "delta-exit")],
                        "allowed": allowed_logs.get((sc["quit"] > 0, bool(sc["stay"])), [])})
     for i, (sc, r, plog, ref, ref_writes) in enumerate(res):
-        if sc.get("_idx", 0) >= n_plain and not r.timed_out and r.err.count(b"\n") < 4000:
+        # (status 129 - git rejected an option -: delta shows the first line only, the usage text that follows is left out)
+        if sc.get("_idx", 0) >= n_plain and not r.timed_out and sc["status"] != 129 and r.err.count(b"\n") < 4000:
             V.violation(f"stderr-lost:{sc['out']}:{sc['status']}", f"of the 4000 lines the wrapped command wrote to stderr only {r.err.count(chr(10).encode())} "
                         f"arrived (output to {sc['out']}, child status {sc['status']})", {"scenario": sc, "run": r.to_json()})
     failed, tr = tlc.validate_trace("Trace_Pager", events)
